@@ -4,7 +4,7 @@ import os
 import re
 
 from .. import cfg, tables
-from ..lib import calls, short
+from ..lib import calls, cname, short
 from ..sym import Sym
 
 VERIF = os.path.dirname(os.path.dirname(os.path.dirname(os.path.abspath(__file__))))
@@ -218,6 +218,48 @@ def run(ctx):
         [a["int"] for g in unit for b, t in g.calls() for a in t["args"] if a.get("k") == "const" and a.get("ty") == "char" and "int" in a]
     ctx.check(per_byte and set(consts) <= {0xFFFD} and bool(consts), "REPL", "ascii_decode emits one character per byte (U+FFFD for non-ASCII)", "", whyd if not per_byte else
               "ascii_decode substitutes %s, not U+FFFD" % [hex(c) for c in consts], f.loc(), fn=f.name, key="REPL|ascii-per-byte")
+    # the ASCII range is exactly 0..=0x7F on both sides: a unit passes through exactly when it is <= 0x7F, and is replaced exactly when it is >= 0x80
+    from ..lib import interval_of, lifted_closures
+    for fname, unit_ty in (("msi::internal::codepage::ascii_decode", "char"), ("msi::internal::codepage::ascii_encode", "u8")):
+        f = prog.fn(fname)
+        Sf = Sym(prog, f)
+        views = [(f, Sf.val, Sf.bool_facts_at)] + [(L.fn, L.val, L.facts_at) for L in lifted_closures(prog, f, Sf)]
+        passes, repl = [], []
+        for (g, val, fat) in views:
+            for bl in g.blocks:
+                if bl["cleanup"]:
+                    continue
+                em = []
+                t = bl["term"]
+                if t["t"] == "call" and re.search(r"(Vec::<T, A>|String)::push$", cname(prog, t)):
+                    em.append(val(t["args"][1]))
+                if g.kind == "Closure" and g.locals[0] == unit_ty:
+                    for st in bl["stmts"]:
+                        if st["lhs"]["l"] == 0 and not st["lhs"]["p"] and st["rhs"]["rv"] in ("use", "cast"):
+                            v = val(st["rhs"]["ops"][0])
+                            em.append("(%s as %s)" % (v, unit_ty) if st["rhs"]["rv"] == "cast" else v)
+                for v in em:
+                    m = re.fullmatch(r"\((.*) as (char|u8)\)", v)
+                    if m:
+                        passes.append((m.group(1), fat(bl["id"]), g, bl))
+                    elif re.fullmatch(r"c:\d+", v):
+                        repl.append((fat(bl["id"]), g, bl))
+        ok, why = bool(passes), "%s has no site that passes a unit through unchanged" % short(fname)
+        for (var, fs, g, bl) in passes:
+            lo, hi, ex = interval_of(fs, var)
+            if hi != 127 or (lo or 0) > 0 or any(0 <= x <= 127 for x in ex):
+                ok, why = False, "%s passes a unit through unchanged when it is in %s..%s%s; the ASCII range is exactly 0..=0x7F (U+007F is ASCII, 0x80 is not)" % (
+                    short(fname), lo or 0, "=%d" % hi if hi is not None else "", " except %s" % sorted(ex) if ex else "")
+        var0 = passes[0][0] if passes else None
+        for (fs, g, bl) in repl:
+            lo, hi, ex = interval_of(fs, var0) if var0 else (None, None, set())
+            lo = lo or 0
+            while lo in ex:
+                lo += 1
+            if lo != 128 or hi is not None:
+                ok, why = False, "%s substitutes the replacement for units from %d%s; exactly the units >= 0x80 are outside ASCII" % (short(fname), lo, "..=%d" % hi if hi is not None else "")
+        ctx.check(ok and bool(repl), "REPL", "%s: the pass-through range is exactly 0..=0x7F" % short(fname), "%d pass-through, %d replacement sites" % (len(passes), len(repl)),
+                  why if not ok else "%s has no replacement site" % short(fname), f.loc(), fn=f.name, key="REPL|ascii-range|%s" % short(fname))
     f = prog.fn("msi::internal::codepage::CodePage::encode")
     S = Sym(prog, f)
     loops = cfg.natural_loops(f)
